@@ -158,16 +158,16 @@ func VH_C13_encode_total() {
 		{"nil-actorref", func() error { return messages.NewWriter().WriteFrom(nilRef) }},
 		{"struct-with-map", func() error { return messages.NewWriter().WriteFrom(withMap{}) }},
 		{"nil-pointer", func() error { return messages.NewWriter().WriteFrom(nilPtr) }},
-		{"message-nil", func() error { return messages.NewWriter().WriteMessage(nil, vhCodec{}) }},
-		{"message-non-pointer", func() error { return messages.NewWriter().WriteMessage("text", vhCodec{}) }},
-		{"message-nil-field-pong", func() error { return messages.NewWriter().WriteMessage(&messages.PongMessage{}, vhCodec{}) }},
-		{"message-pipe-nil-inner", func() error { return messages.NewWriter().WriteMessage(&vivid.PipeResult{Id: "x"}, vhCodec{}) }},
+		{"message-nil", func() error { return messages.NewWriter().WriteMessage(nil, vhStrictCodec{}) }},
+		{"message-non-pointer", func() error { return messages.NewWriter().WriteMessage("text", vhStrictCodec{}) }},
+		{"message-nil-field-pong", func() error { return messages.NewWriter().WriteMessage(&messages.PongMessage{}, vhStrictCodec{}) }},
+		{"message-pipe-nil-inner", func() error { return messages.NewWriter().WriteMessage(&vivid.PipeResult{Id: "x"}, vhStrictCodec{}) }},
 		{"envelope-nil-message", func() error {
-			_, err := serialize.EncodeEnvelopWithRemoting(vhCodec{}, mailbox.NewEnvelop(false, nil, nil, nil))
+			_, err := serialize.EncodeEnvelopWithRemoting(vhStrictCodec{}, mailbox.NewEnvelop(false, nil, nil, nil))
 			return err
 		}},
 		{"envelope-non-pointer-message", func() error {
-			_, err := serialize.EncodeEnvelopWithRemoting(vhCodec{}, mailbox.NewEnvelop(false, nil, nil, 42))
+			_, err := serialize.EncodeEnvelopWithRemoting(vhStrictCodec{}, mailbox.NewEnvelop(false, nil, nil, 42))
 			return err
 		}},
 	}
@@ -182,3 +182,17 @@ func VH_C13_encode_total() {
 		vrtReach("returned-error")
 	})
 }
+
+// vhStrictCodec is a user codec that only understands its own message type
+// (it refuses nil): with it a nil message / nil nested message is a value the
+// codec does not support, and encoding must return an error.
+type vhStrictCodec struct{}
+
+func (vhStrictCodec) Encode(message any) ([]byte, error) {
+	if message == nil {
+		return nil, vivid.ErrorIllegalArgument
+	}
+	return vhCodec{}.Encode(message)
+}
+
+func (vhStrictCodec) Decode(data []byte) (any, error) { return vhCodec{}.Decode(data) }
